@@ -147,6 +147,24 @@ func init() {
 		if err := writeClaimCases(o.out, "cases_C01claim", claimCases); err != nil {
 			return err
 		}
+		// chains under the library's default policy through real servers, two in five of them built WITHOUT options: the
+		// chain has to end at a principal entitled to issue there too (also when its root is the service's own key)
+		var srvWorlds []*World
+		rs := rand.New(rand.NewSource(o.seed + 4242))
+		nsrvw := 120
+		if o.tier == "thorough" {
+			nsrvw = 3000
+		}
+		for i := 0; i < nsrvw; i++ {
+			k := chainKnobs{MaxDepth: 3, Defects: []int{0, 1, 1}, Decoys: 0, Caveats: true, ForcePolicy: "self"}
+			w, info := chainWorld(rs, 200000+i, o.seed, k)
+			st.addChain(info)
+			labels[200000+i] = fmt.Sprintf("through a server: depth=%d defects=%s", info.Depth, strings.Join(info.Defects, ","))
+			srvWorlds = append(srvWorlds, w)
+		}
+		if _, err := serverPass(o, "C01", srvWorlds, nil); err != nil {
+			return err
+		}
 		shards := 16
 		if err := writeWorldCases(o.out, "cases_C01", cases, shards, "check_worlds"); err != nil {
 			return err
